@@ -815,6 +815,24 @@ long (and `n = 0` only for `dist ≤ 0`). -/
 theorem segCount_covers (factor : Nat) (dist L : ℚ) (hf : 1 ≤ factor) (hL : 0 < L) :
     dist ≤ (segCount factor dist L : ℚ) * L := segCount_covers_rat factor dist L hf hL
 
+/-- [EX] the count is tight and the factor is a plain multiplier: with factor 1 the count `k` satisfies
+`(k - 1)·L < dist ≤ k·L` (one segment fewer would leave a step longer than the longest valid segment — `segCount_pos`
+and `segCount_covers` alone would also hold of `⌈·⌉ + 1`), and `segCount f = f · segCount 1`. -/
+theorem segCount_tight (factor : Nat) (dist L : ℚ) (hd : 0 < dist) (hL : 0 < L) :
+    ((segCount 1 dist L : Nat) : ℚ) * L < dist + L ∧ dist ≤ ((segCount 1 dist L : Nat) : ℚ) * L ∧
+    segCount factor dist L = factor * segCount 1 dist L :=
+  ⟨segCount_tight_rat dist L hd hL, segCount_covers_rat 1 dist L (Nat.le_refl 1) hL, by simp [segCount]⟩
+
+/-- [AF] a zero-length motion (`n = 0`; the hypotheses `1 ≤ n` of the query-discipline theorems leave it out): both
+forms ask exactly one question, about the end state, and answer what it says. -/
+theorem zero_length_motion (val : Validator) (v : Nat → Bool) :
+    (checkMotion3 val true 0 v).queries = [0] ∧ (checkMotion2 val true 0 v).queries = [0] ∧
+    (checkMotion3 val true 0 v).verdict = v 0 ∧ (checkMotion2 val true 0 v).verdict = v 0 := by
+  rw [checkMotion3_path, checkMotion2_path]
+  cases hv : v 0 <;> simp [checkLinear, checkBisect, checkBisectGen, hv]
+
+example : (checkBisect 0 (fun _ => false)).queries = [0] ∧ (checkLinear 0 (fun _ => true)).verdict = true := by decide
+
 example : segCount 2 (7 : ℚ) 2 = 8 := by
   simp only [segCount, SegNum.ceilDiv]
   have : ⌈(7 : ℚ) / 2⌉₊ = 4 := by
@@ -949,6 +967,22 @@ theorem reentrant_nested_alone (three : Bool) (n k : Nat) (three' : Bool) (n' : 
   · have h2 : ¬ ((0 : Nat) < k ∧ k ≤ 0 + P.queries.length) := by simpa [ran] using hr
     simp only [afterQuestions, h2, hr, if_false, World.bump]
     simp
+
+/-- [AF] the constrained validator (Projected, Atlas, TangentBundle traversals; index `0` = the start state, `m + 1` =
+the end state, both handed over as themselves): whatever happens inside its validity questions, both forms return what
+`constrained2G` / `constrained3G` return for the motion alone — verdict, which traversal state is handed back, whether
+`lastValid.second` is written, question order, counter increment. -/
+theorem reentrant_constrained (mode : TMode) (hasFirst sat : Bool) (m : Nat) (geom : Bool) (v : Nat × Nat → Bool)
+    (hook : World → World) (w : World) :
+    (constrained2GW (askVia false 0 (m + 1) v hook) mode sat m geom w).1 =
+      constrained2G mode sat m geom (fun j => v (0, j)) ∧
+    (constrained3GW (askVia false 0 (m + 1) v hook) mode hasFirst sat m geom w).1 =
+      constrained3G mode hasFirst sat m geom (fun j => v (0, j)) :=
+  ⟨constrained2GW_fst _ _ (fun j w => askVia_own_fst 0 (m + 1) v hook j w) mode sat m geom w,
+    constrained3GW_fst _ _ (fun j w => askVia_own_fst 0 (m + 1) v hook j w) mode hasFirst sat m geom w⟩
+
+example : (constrained3GW (askVia false 0 4 (fun p => p.2 != 2) (fun w => w.bump 5 5)) .atlas true true 3 true
+    ⟨0, 0, (9, 9), 0, none⟩).1.back = some 1 := by decide
 
 /-- outer motion: 3 segments, all valid; nested motion: 3 segments, point 2 invalid; the nested call is made at the
 outer call's first question.  With per-call scratch both calls return what they return alone. -/
